@@ -642,6 +642,11 @@ func (sc *alScen) valid() bool {
 	if sc.cons == alConsNestOuter && (sc.mut == alMutIncr || sc.mut == alMutInSite) {
 		return false
 	}
+	// ... and no `==` on them: comparison of arrays is outside the modelled core (Prim.compareVals
+	// answers "cannot compare", the Go code compares element-wise)
+	if sc.cons == alConsNestOuter && sc.obs == alObsEqual {
+		return false
+	}
 	return true
 }
 
@@ -853,6 +858,11 @@ func aliasGen(g *Gen) {
 	}
 	for i := 0; i < nMal; i++ {
 		sc := alRandom(g, 2)
+		if sc.obs == alObsEqual {
+			// a tree mutation can put arrays where `==` expects scalars; comparison of arrays is
+			// outside the modelled core (see valid)
+			sc.obs = alObsBoth
+		}
 		texts := sc.texts()
 		e := &evg{g: g}
 		t := g.Rng.Intn(len(texts))
